@@ -1,6 +1,6 @@
 (* C18 -- the v1 verdict is final once the first line break or 107 bytes have been seen.
    Statements only; proofs in Proofs/V1Final.v. *)
-From PPP Require Import Base.Bytes Std.Utf8 Std.Text Model.V1 Proofs.BytesFacts Proofs.V1Text Proofs.V1Final.
+From PPP Require Import Base.Bytes Std.Utf8 Std.Text Model.V1 Proofs.BytesFacts Proofs.V1Text Proofs.V1Final Proofs.Extra.
 
 (* settled x: the input contains its first CR followed by at least one more byte, or 107 bytes without CR *)
 Theorem C18_bytes : forall x, settled x -> is_incomplete1 (p1 x) = false.
@@ -12,6 +12,10 @@ Proof. exact p1s_final. Qed.
 (* no later byte can change it: after the first line break the result is identical ... *)
 Theorem C18_stable : forall x t i, first_cr x = Some i -> i + 1 < lenN x -> p1 (x ++ t) = p1 x.
 Proof. exact p1_stable_cr. Qed.
+
+Theorem C18_stable_str : forall s t i, utf8_valid s = true -> utf8_valid (s ++ t) = true ->
+  first_cr s = Some i -> i + 1 < lenN s -> p1s (s ++ t) = p1s s.
+Proof. exact p1s_stable_cr. Qed.
 
 (* ... and after 107 CR-free bytes it stays a terminal error *)
 Theorem C18_stable_long : forall x t, first_cr x = None -> MAX_LENGTH <= lenN x ->
@@ -32,5 +36,6 @@ Proof. split; [left; exists 10; split; [reflexivity|vm_compute; reflexivity]|spl
 Print Assumptions C18_bytes.
 Print Assumptions C18_str.
 Print Assumptions C18_stable.
+Print Assumptions C18_stable_str.
 Print Assumptions C18_stable_long.
 Print Assumptions C18_core.
